@@ -55,12 +55,19 @@ class Engine:
         self.fork_log = []
         self.active = False
         self.exp_underflow = False
+        self.fact_ids = set()
+        self.in_fact_stub = 0
         FACT.clear()
 
     def fresh(self, name="v"):
         return z3.Real("%s!%d" % (name, next(self.nfresh)))
 
-    def assume(self, cond, note=None):
+    def assume(self, cond, note=None, fact=None):
+        """fact=True marks an instantiated true fact about a real function (exp, cos,
+        tanh, algebraic constants); such axioms are satisfiable by construction and may be
+        left out of the vacuity twin when the solver cannot digest them"""
+        if fact is None:
+            fact = self.in_fact_stub > 0
         if isinstance(cond, SymBool):
             cond = cond.z
         if cond is True:
@@ -68,6 +75,8 @@ class Engine:
         if cond is False:
             cond = z3.BoolVal(False)
         self.assumptions.append(cond)
+        if fact:
+            self.fact_ids.add(cond.get_id())
         if note and note not in self.assumption_notes:
             self.assumption_notes.append(note)
 
@@ -672,6 +681,20 @@ def _uf_app(name, x, axioms):
     return y
 
 
+def _facts(fn):
+    import functools
+
+    @functools.wraps(fn)
+    def w(*a, **kw):
+        ENGINE.in_fact_stub += 1
+        try:
+            return fn(*a, **kw)
+        finally:
+            ENGINE.in_fact_stub -= 1
+    return w
+
+
+@_facts
 def sym_exp(s):
     s = lift(s)
     if s.is_real:
@@ -708,6 +731,7 @@ def sym_exp(s):
     return mag * mk(c.re, si.re)
 
 
+@_facts
 def _trig_pair(x):
     """(cos x, sin x) as components"""
     if isinstance(x, Fraction):
@@ -743,6 +767,7 @@ def sym_sin(s):
     return SymR(_trig_pair(s.re)[1])
 
 
+@_facts
 def sym_tanh(s):
     s = lift(s)
     if not s.is_real:
@@ -766,6 +791,7 @@ def sym_tanh(s):
     return SymR(_uf_app("Tanh", x, ax))
 
 
+@_facts
 def sym_log(s):
     s = lift(s)
     if not s.is_real:
